@@ -39,7 +39,10 @@ RULE = ("operations: deeplinks.Resolve on the full structured product {'',http:/
         "paths over a segment alphabet (empty, escapes, Unicode, upper case, joinchat), sampled 0..3-segment paths with "
         "random usernames / escaped bytes / runes / raw high bytes, and arbitrary / mutated / URL-soup / bare-word "
         "strings; each link also as c20.rp (Go's url.Parse output fed to the Lean resolveParsed) and c20.parse "
-        "(url.Parse vs UrlLite.parse); plus Hostname() and strings.ToLower on generated strings; distinct = distinct "
+        "(url.Parse vs UrlLite.parse); plus Hostname() and strings.ToLower on generated strings; last in the run, "
+        "c20.alias: a caller writes through the slice ReservedHosts() returned (append to a re-slice with spare "
+        "capacity, elements assigned in place, look-alikes derived in place) and every reserved host and every "
+        "written name is resolved before and after - the answers and the list must be unchanged; distinct = distinct "
         "operation lines; every Resolve result is judged by an oracle written from the property text")
 
 GEN_FILE = os.path.join(vlib.LEAN, "Mtv", "Gen", "Links.lean")
